@@ -120,6 +120,18 @@ def _gen_cases(tier, seed):
                     for ai in (0, 1):
                         yield dict(i=i, fmt=fmt, n=5, op="list", k=k, stride=stride, ai=ai)
                         i += 1
+            for n in (101, 230, 517):
+                for chunk in (0, 1, 64, 100, 128, n - 1, n, n + 1):
+                    for stride in (1, 2, 7, 101):
+                        for skip in (0, 1, 100, 101, n - 1, n):
+                            yield dict(i=i, fmt=fmt, n=n, op="iterload", chunk=chunk, stride=stride, skip=skip, ai=[0, 1, 4][i % 3])
+                            i += 1
+                for stride in (1, 2, 7, 100, 101, n, n + 1):
+                    yield dict(i=i, fmt=fmt, n=n, op="load", stride=stride, ai=i % 6)
+                    i += 1
+                for fr in sorted({0, 99, 100, min(101, n - 1), n - 1}):
+                    yield dict(i=i, fmt=fmt, n=n, op="frame", frame=fr, ai=i % 6)
+                    i += 1
         return
     nq = 12000
     for j in range(nq):
@@ -137,6 +149,17 @@ def _gen_cases(tier, seed):
             c.update(frame=int(rng.integers(0, n)))
         else:
             c.update(k=int(rng.integers(1, 4)), stride=int(rng.choice([1, 2, 3])))
+        if j % 25 == 24 and op != "list":
+            # long files: more frames than the default chunk of 100, strides and skips in the hundreds
+            n = int(rng.choice([101, 230, 517]))
+            c["n"] = n
+            if op == "iterload":
+                c.update(chunk=int(rng.choice([0, 1, 7, 64, 100, 128, n - 1, n, n + 1])), stride=int(rng.choice([1, 1, 2, 3, 7, 50, 101, n])),
+                         skip=int(rng.choice([0, 0, 1, 99, 100, 101, n - 1, n, int(rng.integers(0, n + 1))])))
+            elif op == "load":
+                c.update(stride=int(rng.choice([1, 2, 7, 50, 100, 101, n - 1, n, n + 1])))
+            else:
+                c.update(frame=min(n - 1, int(rng.choice([0, 99, 100, 101, n - 1, int(rng.integers(0, n))]))))
         yield c
 
 
